@@ -421,6 +421,17 @@ int ChainSim::MineOn(int parent, int ntx, uint64_t txseed, int defect, int bound
     return idx;
 }
 
+int ChainSim::AddBlock(std::shared_ptr<const CBlock> block, int parent, const BlockLabel& label)
+{
+    if (block->GetBlockTime() > now) { now = block->GetBlockTime(); SetMockTime(std::chrono::seconds{now}); }
+    int idx = ref->Add(std::move(block), parent, label);
+    delivered.push_back(0);
+    header_given.push_back(0);
+    const RefBlock& B = ref->blocks[idx];
+    ctx.evf("addblock #%d h=%d on #%d %s txs=%zu verdict=%d(%s)", idx, B.height, parent, B.hash.ToString().substr(0, 10).c_str(), B.block->vtx.size(), (int)B.verdict, B.reason.c_str());
+    return idx;
+}
+
 void ChainSim::MineBase(int n)
 {
     Rng r(mix64(ctx.plan.seed, 0xba5e));
